@@ -798,3 +798,42 @@ func (w *World) breakTarget(shard string) {
 func farmOwner(ns, wf string, n int) int {
 	return int(farm.Fingerprint32([]byte(ns+"_"+wf))%uint32(n)) + 1
 }
+
+// AllFinalAcked: every source with a script has received an acknowledgement equal to its final watermark.
+func (r *Recorder) AllFinalAcked() bool {
+	r.mu.Lock()
+	defer r.mu.Unlock()
+	for s, sc := range r.sc.Scripts {
+		if len(sc) == 0 {
+			continue
+		}
+		if _, ok := r.finalAckAt[s]; !ok {
+			return false
+		}
+	}
+	return true
+}
+
+// Summary returns the violations recorded so far, event counts, and whether every source was fully acknowledged;
+// undelivered tasks at that point are reported under C02.
+func (r *Recorder) Summary() ([]rec.Violation, map[string]int64, bool) {
+	done := r.AllFinalAcked()
+	r.mu.Lock()
+	defer r.mu.Unlock()
+	counts := map[string]int64{"events": int64(len(r.Events)), "src_acks_checked": r.acksChecked, "src_acks_nonvacuous": r.nonVacuousAcks}
+	for k, v := range r.kindCount {
+		counts["ev_"+k] = v
+	}
+	var delivered int64
+	for _, ts := range r.tasks {
+		if ts.deliveries > 0 {
+			delivered++
+		}
+	}
+	counts["tasks"], counts["tasks_delivered"] = int64(len(r.tasks)), delivered
+	viol := append([]rec.Violation{}, r.Viol...)
+	if done && delivered != int64(len(r.tasks)) {
+		viol = append(viol, rec.Violation{Prop: "C02", Sig: "task-never-delivered", What: fmt.Sprintf("%d of %d tasks were never delivered although every source was acknowledged up to its final watermark", int64(len(r.tasks))-delivered, len(r.tasks))})
+	}
+	return viol, counts, done
+}
